@@ -154,7 +154,10 @@ def resolve_gvi(gaf, ind_path):
                 continue
             recs = []
             for o in offs:
-                a = reader.read_line(o)
+                ra = core.call(reader.read_line, o)
+                core.check(ra[0] == "ok", "offset %r stored in %s cannot be read back from %s: %s", o, os.path.basename(ind_path),
+                           os.path.basename(gaf), ra)
+                a = ra[1]
                 recs.append(tuple(idx.alignment_columns(a)) if a is not None else None)
             out[repr(k)] = sorted(recs, key=repr)
     finally:
@@ -215,6 +218,9 @@ def run_all(d, case, gaf_kind, gfa_kind):
         with open(o + ".gsi", "rb") as f:
             gsi = pickle.load(f)
         out["gsi bgzip=%s" % bg] = {k: [c10.read_at(o, off, bg) for off in v] for k, v in sorted(gsi.items())}
+    # without --outgaf the sorted records go to standard output
+    r = core.cli(["sort", gaf, gfa], capture_stdout=True)
+    put("sort to standard output", r, r[1] if r[0] == "ok" else None)
     r = core.call(stat.run_stat, gaf, cigar_stat=True, output=d + "/stat.txt")
     put("stat", r, core.read_output(d + "/stat.txt", "stat") if r[0] == "ok" else None)
     sub = {"gfa": case["gfa"], "gaf": case["gaf"], "fasta": case["fasta"]}
